@@ -16,6 +16,11 @@ mod hunks;
 mod stack;
 mod dist;
 mod text;
+mod rt;
+mod total;
+
+#[global_allocator]
+static ALLOC: total::Counting = total::Counting;
 
 fn main() {
     let args: Vec<String> = std::env::args().collect();
@@ -27,6 +32,8 @@ fn main() {
     std::panic::set_hook(Box::new(|_| {}));
     let code = match args[1].as_str() {
         "hunks" => hunks::main(&args[2..]),
+        "parsetotal" => total::main(&args[2..]),
+        "rt" => rt::main(&args[2..]),
         "textapply" => text::main(&args[2..]),
         "dist" => dist::main(&args[2..]),
         "stack" => stack::main(&args[2..]),
